@@ -465,7 +465,7 @@ class Engine:
             return z3.BoolVal(False)      # a container never equals a scalar
         if a.kind != b.kind:
             # values of different python types are unequal (int/real/bool handled above)
-            if {a.kind, b.kind} <= {'str', 'int', 'real', 'bool', 'none', 'tuple', 'cls'}:
+            if {a.kind, b.kind} <= {'str', 'int', 'real', 'bool', 'none', 'tuple', 'cls', 'exc'}:
                 return z3.BoolVal(False)
         raise EngineError('equality of %s and %s' % (a.kind, b.kind))
 
